@@ -340,15 +340,15 @@ static void do_topo(char *line)
     d = i < (unsigned) depth ? (int) i : special[i - depth];
     for (fi = 0; fi < 2; fi++) {
       /* all objects of one level print the same type text? (count distinct) */
-      char first[128] = "", cur[128]; unsigned cnt = 0, differ = 0; volatile int st;
+      char first[128] = "", cur[128], other[128] = ""; unsigned cnt = 0, differ = 0; volatile int st;
       o = NULL;
       while ((o = hwloc_get_next_obj_by_depth(t, d, o)) != NULL) {
         GUARDED(st, hwloc_obj_type_snprintf(cur, sizeof cur, o, fl[fi]));
         if (st) { strcpy(cur, st == 1 ? "<LOOP>" : "<ASSERT>"); }
-        if (!cnt) strcpy(first, cur); else if (strcmp(first, cur)) differ++;
+        if (!cnt) strcpy(first, cur); else if (strcmp(first, cur)) { if (!differ) strcpy(other, cur); differ++; }
         cnt++;
       }
-      if (cnt) printf("level %d flags=%lu n=%u differ=%u first=%s\n", d, fl[fi], cnt, differ, first);
+      if (cnt) printf("level %d flags=%lu n=%u differ=%u first=%s%s%s\n", d, fl[fi], cnt, differ, first, differ ? " other=" : "", differ ? other : "");
     }
     o = NULL;
     while ((o = hwloc_get_next_obj_by_depth(t, d, o)) != NULL) {
